@@ -23,7 +23,7 @@ import ast
 
 from ..astutil import call_name, calls, const_eval, dotted, names_in, param_names, stmts, walk_local, NotConst, Sym
 from ..core import AnalysisError, Mutant
-from ..exprnorm import same_expr
+from ..exprnorm import contains_expr, same_expr
 
 EXPLANATION = (
     "BondType members read from bonds.pyx (lowered) and compared with the literal tables of "
@@ -204,12 +204,12 @@ def run(ctx):
     # mask conventions
     txt_r, txt_w = ast.unparse(fa), ast.unparse(ss)
     ctx.ob("R2.mask-convention", CONV, "set_structure", "ins_code '' <-> INAPPLICABLE",
-           f"np.where({aparam}.ins_code == '', MaskValue.INAPPLICABLE, MaskValue.PRESENT)" in txt_w
-           and "atom_site['pdbx_PDB_ins_code'].as_array(str, '')" in txt_r,
+           contains_expr(ss, f"np.where({aparam}.ins_code == '', MaskValue.INAPPLICABLE, MaskValue.PRESENT)")
+           and contains_expr(fa, "atom_site['pdbx_PDB_ins_code'].as_array(str, '')"),
            "an empty insertion code is written as '.' and must be read back as ''", ss.lineno)
     ctx.ob("R2.mask-convention", CONV, "set_structure", "charge 0 <-> MISSING",
-           f"np.where({aparam}.charge == 0, MaskValue.MISSING, MaskValue.PRESENT)" in txt_w
-           and "atom_site['pdbx_formal_charge'].as_array(int, 0)" in txt_r,
+           contains_expr(ss, f"np.where({aparam}.charge == 0, MaskValue.MISSING, MaskValue.PRESENT)")
+           and contains_expr(fa, "atom_site['pdbx_formal_charge'].as_array(int, 0)"),
            "a zero charge is written as '?' and must be read back as 0", ss.lineno)
     # coordinates and models
     for ax, col in enumerate(("Cartn_x", "Cartn_y", "Cartn_z")):
@@ -224,8 +224,8 @@ def run(ctx):
         ctx.ob("R2.coordinate-column", CONV, "set_structure", f"{col} <-> coord[..., {ax}]", w_ok and r_ok and n_r == 2,
                f"axis {ax} of the coordinates must be written to and read from {col}", ss.lineno)
     ctx.ob("R2.model-numbering", CONV, "set_structure", "np.repeat(np.arange(1, depth + 1), repeats=array_length)",
-           f"np.repeat(np.arange(1, {aparam}.stack_depth() + 1, dtype=np.int32), repeats={aparam}.array_length())" in txt_w
-           and f"np.reshape({aparam}.coord, ({aparam}.stack_depth() * {aparam}.array_length(), 3))" in txt_w,
+           contains_expr(ss, f"np.repeat(np.arange(1, {aparam}.stack_depth() + 1, dtype=np.int32), repeats={aparam}.array_length())")
+           and contains_expr(ss, f"np.reshape({aparam}.coord, ({aparam}.stack_depth() * {aparam}.array_length(), 3))"),
            "models are written one after the other, numbered from 1", ss.lineno)
 
     # ---------------- R3 written but never read --------------------------------
@@ -280,8 +280,9 @@ def run(ctx):
     ctx.ob("R3.partner-columns", CONV, "_set_inter_residue_bonds", f"written {wc}", set(wc) <= set(rc) and len(wc) >= 4,
            f"partner columns written ({wc}) must be among those the reader matches on ({rc})", wf.lineno)
     ctx.ob("R3.partner-columns", CONV, "_set_inter_residue_bonds", "both partners, bond_array[:, i]",
-           "for i in range(2):" in ast.unparse(wf) and "atom_indices = bond_array[:, i]" in ast.unparse(wf)
-           and "_get_struct_conn_col_name(col_name, i + 1)" in ast.unparse(wf),
+           any(isinstance(lp, ast.For) and isinstance(lp.target, ast.Name) and same_expr(lp.iter, "range(2)")
+               and any(isinstance(b, ast.Assign) and same_expr(b.value, f"bond_array[:, {lp.target.id}]") for b in ast.walk(lp))
+               and contains_expr(lp, f"_get_struct_conn_col_name(col_name, {lp.target.id} + 1)") for lp in ast.walk(wf)),
            "partner i must be described by column i of the bond array", wf.lineno)
 
     # ---------------- R4 altloc dispatch ----------------------------------------
@@ -325,7 +326,7 @@ def run(ctx):
     for q in ("filter_first_altloc", "filter_highest_occupancy_altloc"):
         f = fl.func(q)
         ctx.ob("R4.no-altloc-kept", FILT, q, "np.isin(altloc_ids, ['.', '?', ' ', ''])",
-               "np.isin(altloc_ids, ['.', '?', ' ', ''])" in ast.unparse(f),
+               contains_expr(f, "np.isin(altloc_ids, ['.', '?', ' ', ''])") or contains_expr(f, "np.isin(altloc_ids, ('.', '?', ' ', ''))"),
                "atoms without alternate location must always be kept", f.lineno, nontrivial=False)
 
     # ---------------- R5 precedence, canonical links -----------------------------
